@@ -94,6 +94,7 @@ def shapes(tier, seed):
         # a device FAIL during a multi-WRTE push, all legal orderings: conformance of the host packets only (outcome judged by C10)
         for at in (['send'], ['data', 1], ['wrte', 1], ['wrte', 2], ['done']):
             out.append({'h': 'ops', 'impl': impl, 'maxdata': 4096, 'ops': [['push', {'size': 9000}]], 'fail': at, 'reorder': True, 'judge': False})
+            out.append({'h': 'ops', 'impl': impl, 'maxdata': 4096, 'ops': [['push', {'size': 9000}]], 'fail': at, 'reorder': True, 'judge': False, 'cuts': 1, 'max_paths': 200000})
         # a host-initiated close while the device still has data in flight (local sink fails at the j-th write)
         for j in (1, 2):
             out.extend({'h': 'ops', 'impl': impl, 'maxdata': 4096, 'ops': [['pull', {'dest': 'failing', 'fail_at': j, 'recs': [2, 2, 1]}]], 'cuts': 2, 'judge': False, 'eager': e} for e in (False, True))
